@@ -553,6 +553,12 @@ impl<'a> GeneralCheck<'a> {
                         .entry(name)
                         .and_modify(|val| val.push(regex.syntax()))
                         .or_insert(vec![regex.syntax()]);
+                } else if let Some((name, _)) = rule.name(cst) {
+                    // a node creation without a name creates a node of the rule
+                    sema.rule_bindings
+                        .entry(name)
+                        .and_modify(|val| val.push(regex.syntax()))
+                        .or_insert(vec![regex.syntax()]);
                 }
                 if regex.whole_rule(cst) {
                     sema.has_rule_creation.insert(rule);
